@@ -10,11 +10,13 @@ DRV = 'drv_c20'
 REGISTRY = {
     'id': 'C20',
     'text': 'Lean theorems about the model of ProFormaAnnotation.__eq__ / are_mods_equal / are_intervals_equal (reflexive, symmetric, '
-            'transitive, equal iff the per-field multisets of (value, multiplier) keys agree, insensitive to permuting the mods of one '
-            'position, sensitive to each single perturbation: value, multiplier, position, interval bound, charge, drop, duplicate, '
-            'residue) and of mod_dict / add_mod_dict / strip / dict / create_annotation (add_get_inverse, create_dict, strip_spec); the '
-            'model is tied to /repo by correspondence on generated annotations and every single-field perturbation; the oracle evaluates '
-            'the property clauses on the implementation, including independence of copies (mutate the copy, re-dump the source)',
+            'transitive; equal iff the canonical forms - per position the multiset of (decimal value key, multiplier) - are equal; the '
+            'decimal key decides numeric equality m*10^e = m\'*10^e\' so int 1 == float 1.0; insensitive to permuting the mods of one '
+            'position; one sensitivity theorem per perturbation: value, multiplier, position, interval bound/flag/mods, interval '
+            'count, charge, drop, duplicate, residue) and of mod_dict / add_mod_dict / strip / dict / create_annotation '
+            '(add_get_inverse, create_dict, strip_spec); the model is tied to /repo by correspondence on generated annotations and '
+            'every single-field perturbation; the oracle evaluates the property clauses on the implementation, including '
+            'independence of copies (mutate the copy, re-dump the source)',
     'note': 'trusted: Lean kernel, axioms propext/Classical.choice/Quot.sound, the correspondence harness; float values are read through '
             'their repr as exact decimals (exact int/float comparison for |x| < 1e16); nan is outside the domain; util.convert_type on raw '
             'str inputs and object identity/aliasing are outside the pure model (aliasing is checked dynamically)',
